@@ -306,7 +306,7 @@ def main(argv=None):
             # discharged on the unchanged tree, not now, and no failing input found.  Before this is reported,
             # the (contract, case) is verified once more, alone and with a 6x solver budget: a verdict must not
             # flip because all cores were busy.
-            if recheck(ex, mods, o, tier_opts):
+            if not a.update_baseline and recheck(ex, mods, o, tier_opts):
                 discharged.append(full)
                 rechecked.append(full)
                 open_.remove(full)
